@@ -56,6 +56,10 @@ def judge(case, part):
         source, _ = readermachine.store(config, decls, table)
         runs[mode] = api_rows(cid, source, mode)
         part.transitions += 1
+    for mode in MODES:
+        # data problems end a run with a cutplace error or not at all: anything else means the pass was not completed as the mode promises
+        if runs[mode][1] is not None and runs[mode][1].get("foreign"):
+            part.fail(tag % ("%s-run-ended-with-%s" % (mode, runs[mode][1]["type"])), case, "rows, rejections or a cutplace error", runs[mode][1])
     yield_events, yield_raised = runs["yield"]
     errors_yielded = [e for e in yield_events if e[0] == "err"]
     rows_yielded = [e[1] for e in yield_events if e[0] == "row"]
